@@ -8,8 +8,8 @@ D=$(mktemp -d /tmp/seed_XXXXXX)
 git -C /repo worktree add -q --detach "$D/wt" HEAD || exit 3
 if ! git -C "$D/wt" apply "$M/patch.diff" 2>/tmp/apply.err; then echo "PATCH-DOES-NOT-APPLY $(head -2 /tmp/apply.err)"; git -C /repo worktree remove --force "$D/wt"; rm -rf "$D"; exit 3; fi
 SUITE=$(/verif/tools/run_suite.sh "$D/wt" | head -3 | tr '\n' ' ')
-( cd "$M" && PYTHONPATH="$D/wt/src" MPLBACKEND=Agg timeout 300 /venv/bin/python demo.py >/dev/null 2>&1 ); DEMO_MUT=$?
-( cd "$M" && PYTHONPATH="/repo/src" MPLBACKEND=Agg timeout 300 /venv/bin/python demo.py >/dev/null 2>&1 ); DEMO_CLEAN=$?
+( cd "$M" && DASK_SCHEDULER=synchronous PYTHONPATH="$D/wt/src" MPLBACKEND=Agg timeout 300 /venv/bin/python demo.py >/dev/null 2>&1 ); DEMO_MUT=$?
+( cd "$M" && DASK_SCHEDULER=synchronous PYTHONPATH="/repo/src" MPLBACKEND=Agg timeout 300 /venv/bin/python demo.py >/dev/null 2>&1 ); DEMO_CLEAN=$?
 echo "[$(basename $(dirname $M))/$(basename $M)] $SUITE | demo clean=$DEMO_CLEAN mutant=$DEMO_MUT"
 for P in ${PROPS//,/ }; do
   OUT=$(cd /verif && VERIF_REPO_SRC="$D/wt/src" VERIF_JOBS="${VERIF_JOBS:-8}" ./check "$P" --tier "${TIER:-quick}" 2>&1 | tail -4)
